@@ -15,7 +15,8 @@
    blocks use Gen/Widths.v (all 1,112,064 scalar values per coding, regenerated
    from the running code). *)
 From V Require Import Model.Base Model.Gsm7 Model.Splitter Model.Compose Gen.Widths
-  Proofs.Gsm7Proofs Proofs.SplitterProofs Proofs.ComposeProofs Proofs.ComposeInst.
+  Model.IntervalMap Gen.Charsets Model.Charset Model.ComposeText
+  Proofs.Gsm7Proofs Proofs.SplitterProofs Proofs.ComposeProofs Proofs.ComposeInst Proofs.CharsetRoundtrip Proofs.ComposeText.
 Open Scope nat_scope.
 Local Notation length := List.length.
 Local Notation concat := List.concat.
@@ -91,6 +92,26 @@ Theorem C07_header_code : forall ref, (ref < 65536)%N ->
     N.of_nat (length (snd (concat_ie ref 7 3))) = dl.
 Proof. exact header_code_is_model. Qed.
 
+(* the DATA octets of the element: for every reference (total 7, sequence 3) the element Set() writes has the model's id,
+   length and big-endian data value (hence every octet); and at the references 0, 255, 256, 65535 for EVERY (total,
+   sequence) pair *)
+Theorem C07_header_data : forall ref, (ref < 65536)%N ->
+  exists lo hi id dl v0, In (lo, hi, id, dl, v0) wd_header_data_runs /\ (lo <= ref <= hi)%N /\
+    fst (concat_ie ref 7 3) = id /\ N.of_nat (length (snd (concat_ie ref 7 3))) = dl /\
+    be_val (snd (concat_ie ref 7 3)) = (v0 + 65536 * (ref - lo))%N.
+Proof. exact header_data_is_model. Qed.
+Theorem C07_header_total_seq : forall ref total seq, In ref [0; 255; 256; 65535]%N -> (total < 256)%N -> (seq < 256)%N ->
+  exists id dl v0, In (ref, 0, 65535, id, dl, v0)%N wd_header_ts_runs /\
+    fst (concat_ie ref total seq) = id /\ N.of_nat (length (snd (concat_ie ref total seq))) = dl /\
+    be_val (snd (concat_ie ref total seq)) = (v0 + (256 * total + seq))%N.
+Proof. exact header_ts_is_model. Qed.
+
+(* exact widths: single-octet charsets, UCS-2 (BMP and supplementary planes) and EUC-JP are charged exactly 8 bits per
+   octet emitted, for every accepted scalar value - for them "could have held one more character" is in octets *)
+Theorem C07_width_exact : width_exact wd_ascii /\ width_exact wd_latin1 /\ width_exact wd_cyrillic /\ width_exact wd_hebrew /\
+  width_exact wd_ucs2 /\ width_exact wd_eucjp.
+Proof. exact width_exact_all. Qed.
+
 (* ---- width_sound: the splitter never charges an accepted character less than the encoder emits,
         per coding, on the tables regenerated from the running code (the obligation D12 broke) ---- *)
 Theorem C07_width_sound :
@@ -127,6 +148,36 @@ Proof. exact compose_gsm7_lossless. Qed.
 Theorem C07_gsm7_total : forall ref t, compose_gsm7 ref t <> Panic /\ compose_gsm7 ref t <> Err EFuel.
 Proof. exact compose_gsm7_no_panic. Qed.
 
+(* ---- the nine table codings at PAYLOAD level: compose_cs c = ComposeMultipartShortMessage with the encoder of
+        Model/Charset.v (the per-character tables of Gen/Charsets.v, every scalar value, regenerated from the running
+        code); the generated cases compare header entries and payload OCTETS of every part.
+        Reassembly: decoding the payloads with the same coding and joining them in order reproduces the text - the
+        parts are the encodings of consecutive non-empty pieces of the text, so no character is dropped, duplicated
+        or cut inside a multi-octet, surrogate-pair or escape sequence.  Scope (cs_scope): ISO-2022-JP texts free of
+        ESC (reserved by RFC 1468, as in C17), UCS-2 texts of scalar values. ---- *)
+Theorem C07_cs_lossless : forall c ref t parts, cs_scope c t -> compose_cs c ref t = Ok parts ->
+  exists segs, concat segs = t /\ Forall2 (fun pt s => decode c (pt_payload pt) = Ok s) parts segs /\
+    (length segs = 1 \/ Forall (fun s => s <> []) segs).
+Proof. exact compose_cs_lossless. Qed.
+Theorem C07_cs_reassembles : forall c ref t parts, cs_scope c t -> compose_cs c ref t = Ok parts ->
+  decode_parts c parts = Ok t.
+Proof. exact compose_cs_reassembles. Qed.
+(* no panic and no divergence for any of the nine codings, any reference, any text *)
+Theorem C07_cs_total : forall c ref t, compose_cs c ref t <> Panic /\ compose_cs c ref t <> Err EFuel.
+Proof. exact compose_cs_total. Qed.
+
+(* the two independent dumps of the encoders agree (Gen/Widths.v octet counts = length of the octets in Gen/Charsets.v, every
+   scalar value, accepted sets equal), hence the length-only encoder of compose_len is the length of what compose_cs encodes.
+   C07_tables_agree_partial: proved for the four single-octet charsets; the same kernel check holds for Shift-JIS, EUC-JP,
+   EUC-KR (run once: 5 min 46 s) but is left out of the build for time - see Proofs/ComposeText.v. *)
+Theorem C07_tables_agree_partial : forall c, single_octet c -> forall t,
+  match enc_len_stateless (wd_of c) t, encode c t with
+  | Ok n, Ok bs => n = length bs
+  | Err _, Err _ => True
+  | _, _ => False
+  end.
+Proof. exact enc_len_is_length. Qed.
+
 (* ---- non-vacuity -------------------------------------------------------------- *)
 (* 200 x 'a', reference 255 (the D11 case): 8-bit element, first part full with 153 septets = 134 octets *)
 Example C07_example_gsm7 :
@@ -142,3 +193,8 @@ Proof. vm_compute. reflexivity. Qed.
 Example C07_example_iso2022jp_refused :
   compose_len w_multibyte (enc_len_2022 wd_iso2022jp JAscii) 1 (List.concat (repeat [0x3042; 97]%N 60)) = Err ESize.
 Proof. exact iso2022jp_size_check_fires. Qed.
+(* Shift-JIS, 70 kanji + 'a' + 70 kanji, reference 255: three parts; decoding the payloads and joining gives the text back *)
+Example C07_example_cs_roundtrip :
+  let t := (rep 70 26085 ++ [97] ++ rep 70 26412)%N in
+  match compose_cs CSjis 255 t with Ok l => decode_parts CSjis l = Ok t /\ length l = 3 | _ => False end.
+Proof. vm_compute. split; reflexivity. Qed.
